@@ -123,6 +123,7 @@ def header_fields(ctx, P):
     value is an error: the config parsers must not default or swallow a field's parse error."""
     from rules import errs
     n = 0
+    m = 0
     for p, r in sorted(ctx.f.bodies.items()):
         if re.search(r'packet::(sym_encrypted_protected_data|gnupg_aead)::\w*Config::try_from_reader$|packet::sym_encrypted_protected_data::Config::try_from_reader$', p):
             b = ctx.wrap(r)
@@ -130,19 +131,65 @@ def header_fields(ctx, P):
             d = errs.discards(b)
             ctx.check('%s:header:no-defaulted-field:%s' % (P, p), 'R-err', 'no header field of %s is defaulted on a parse error (an out-of-range chunk size / algorithm octet is rejected)' % p.split('::')[-2],
                       not d, function=p, missing=['%s of %s' % (form, fn.split('::')[-1]) for i, form, fn in d] or None)
+            # an octet that is converted to a typed header field reaches the conversion unmodified: a clamp / mask / arithmetic on
+            # the way maps several wire values to one parsed value, so an altered octet can decrypt under the original's AD
+            for i, t in b.calls(r'TryInto::try_into$|TryFrom::try_from$|From::from$'):
+                full = t['f'].get('full', '')
+                if not re.search(r'^<u8 as std::convert::TryInto<|^<[\w:]+ as std::convert::(Try)?From<u8>>', full):
+                    continue
+                m += 1
+                og = b.operand_origins(t['args'][0])
+                lossy = sorted(x for x in og if re.search(r'^call:.*::(min|max|clamp|saturating_\w+|wrapping_\w+|checked_\w+|rem_euclid)$|^op:|^const:', x))
+                ctx.check('%s:header:octet-converted-unmodified:%s:%s' % (P, p, re.sub(r'.*<([\w:]+)>>.*', r'\1', full).split('::')[-1]), 'R-lost',
+                          'the wire octet of a %s header field reaches its typed conversion unmodified (no clamp, mask or arithmetic: distinct octets stay distinct or are rejected)' % p.split('::')[-3],
+                          not lossy, function=p, site=site(b, i), missing=lossy or None)
     ctx.floor(P + ':header:floor', 'SEIPD / GnuPG-AEAD config parsers', n, 1)
+    ctx.floor(P + ':header:conversion-floor', 'typed conversions of header octets in the config parsers', m, 2)
 
 
 def run(ctx):
     P = 'C03'
     header_fields(ctx, P)
     seipdv1(ctx, P)
+    read_mode_is_callers_choice(ctx, P)
     seipdv2(ctx, P)
     primitive(ctx, P)
     trailing(ctx, P)
     # no error of the integrity machinery is dropped on the way to the consumer (R-err of C09 restricted to the decryptor stack)
     from rules import stream
     stream.r_err(ctx, P, only=r'crypto::(aead|sym)::|composed::message::reader::(sym_encrypted|packet_body)|composed::message::(types|decrypt)', floor=250)
+
+
+STREAMING_MAKERS = {
+    # the unprotected (SED, no MDC) decryptor has nothing to check first; the mode is ignored for it
+    'crypto::sym::SymmetricKeyAlgorithm::stream_decryptor_unprotected',
+}
+
+
+def read_mode_is_callers_choice(ctx, P):
+    """'In the default SEIPDv1 mode not a single plaintext byte is released before the failure': release-before-check
+    (Seipdv1ReadMode::Streaming) is reached only when the caller passed it.  Structural part: no library function constructs the
+    Streaming value except the reviewed makers, and Default constructs CheckFirst — so the mode that reaches the decryptor is
+    the caller's value or the default."""
+    makers = {}
+    default_ok = None
+    for p, r in sorted(ctx.f.bodies.items()):
+        b = ctx.wrap(r)
+        cs = b.constructs(r'types::Seipdv1ReadMode$')
+        if not cs:
+            continue
+        vs = sorted(set(s['r']['v'] for (_, _, s) in cs))
+        if 'Default' in p and p.endswith('::default'):
+            default_ok = (vs == ['CheckFirst'], p, vs)
+            continue
+        if 'Streaming' in vs:
+            makers[p] = site(b, cs[0][0])
+    extra = sorted(set(makers) - STREAMING_MAKERS)
+    ctx.check(P + ':S03-9:streaming-mode-only-from-caller', 'R-who',
+              'no library function constructs Seipdv1ReadMode::Streaming except the unprotected-data decryptor (release-before-check is the caller\'s explicit choice)',
+              not extra and bool(set(makers) & STREAMING_MAKERS), makers=makers, missing=('constructed in ' + ', '.join('%s (%s)' % (p, makers[p]) for p in extra)) if extra else None)
+    ctx.check(P + ':S03-9:default-mode-checks-first', 'R-table', 'Default for Seipdv1ReadMode is CheckFirst',
+              default_ok is not None and default_ok[0], function=default_ok[1] if default_ok else None, variants=default_ok[2] if default_ok else None)
 
 
 def seipdv1(ctx, P):
